@@ -6,3 +6,5 @@ pub mod parser;
 pub mod printer;
 pub mod strings;
 pub mod schema;
+pub mod depth;
+pub mod introspect;
